@@ -228,8 +228,14 @@ _VLOCK = threading.Lock()
 
 
 def report(v: Verdict, key: str, replay: Any, what: str) -> None:
-    with _VLOCK:
+    # an in-process mypy build redirects sys.stdout for its duration (under _MYPY_LOCK): never print meanwhile
+    with _VLOCK, _MYPY_LOCK:
         v.violation(key, replay, what)
+
+
+def say(msg: str, err: bool = False) -> None:
+    with _MYPY_LOCK:
+        print(msg, file=sys.stderr if err else sys.stdout, flush=True)
 
 
 def pool_map(fn: Callable[[Any], Any], tasks: list[Any]) -> list[Any]:
@@ -245,7 +251,7 @@ def pool_map(fn: Callable[[Any], Any], tasks: list[Any]) -> list[Any]:
         for i, r in enumerate(_POOL.map(fn, tasks)):
             res.append(r)
             if len(tasks) >= 40 and (i + 1) % (len(tasks) // 8) == 0:
-                print("  %s: %d/%d tasks, %ds" % (fn.__name__, i + 1, len(tasks), time.time() - t0), file=sys.stderr, flush=True)
+                say("  %s: %d/%d tasks, %ds" % (fn.__name__, i + 1, len(tasks), time.time() - t0), err=True)
         return res
     except BrokenProcessPool as e:
         raise MachineryError("a worker process died while running %s: %s" % (fn.__name__, e))
@@ -1687,7 +1693,7 @@ def main(argv: list[str]) -> int:
         t0 = time.time()
         totals[part] = checks[part](v, tier, rnd, cov)
         totals[part]["wall_s"] = int(time.time() - t0)
-        print("%s: %s" % (part, json.dumps(totals[part])), flush=True)
+        say("%s: %s" % (part, json.dumps(totals[part])))
 
     # the parts run side by side: the serial work of one (parsing TLC's output, minimisation) overlaps
     # the pool work of the others; all share the worker pool
